@@ -846,3 +846,69 @@ Proof.
   - vm_compute. discriminate.
   - vm_compute. intros c' E. inversion E. reflexivity.
 Qed.
+
+(* ------------------------------------------------------------------ 6. several contexts in one frame *)
+
+(* The per-context try/except of extract_iter makes every context of a frame come out
+   exactly as fill_context gives it in isolation, whatever happened to the earlier ones:
+   the sequential loop with its accumulators equals the three independent projections. *)
+Definition iso_ctx (cf : cfg) (o : opts) (c : ctx) : ctx := final_ctx (fst (fst (fill cf o c))).
+Definition iso_err (cf : cfg) (o : opts) (c : ctx) : option ferr := err_of (fst (fst (fill cf o c))).
+Definition iso_log (cf : cfg) (o : opts) (c : ctx) : list ev := snd (fst (fill cf o c)).
+
+Lemma frame_loop_spec cf o cs : forall dr er log,
+  frame_loop cf o cs dr er log =
+  (rev dr ++ map (iso_ctx cf o) cs, rev er ++ somes (map (iso_err cf o) cs),
+   log ++ concat (map (iso_log cf o) cs)).
+Proof.
+  induction cs as [|c r IH]; intros dr er log; simpl.
+  - rewrite !app_nil_r. reflexivity.
+  - unfold iso_ctx, iso_err, iso_log.
+    destruct (fill cf o c) as [[x l] o'] eqn:F; simpl.
+    rewrite IH. simpl. unfold iso_ctx, iso_err, iso_log.
+    destruct (err_of x); simpl; rewrite <- !app_assoc; reflexivity.
+Qed.
+
+Lemma frame_isolated cf rc cs :
+  frame_fill cf rc cs =
+  (map (iso_ctx cf (Some (true, rc))) cs, somes (map (iso_err cf (Some (true, rc))) cs),
+   concat (map (iso_log cf (Some (true, rc))) cs)).
+Proof. unfold frame_fill. rewrite frame_loop_spec. reflexivity. Qed.
+
+(* in particular the i-th context of the result is the isolated fill of the i-th context *)
+Lemma frame_nth cf rc cs i c :
+  nth_error cs i = Some c ->
+  nth_error (fst (fst (frame_fill cf rc cs))) i = Some (iso_ctx cf (Some (true, rc)) c).
+Proof. intros H. rewrite frame_isolated; simpl. apply map_nth_error; auto. Qed.
+
+(* a failing first context (cycle) does not keep the second from being unwrapped and hidden *)
+Definition ex_frame : cfg :=
+  mkcfg [(0, syn_attr true false); (1, syn_attr true false); (2, syn_attr true false)]
+        [(1, [ESetDescr 1]); (2, [EAppDescr 2])] [(0, UTo 0); (1, UTo 2); (2, UPrune)] [] [] [] []
+        SrcFacts.context_guard SrcFacts.push_restores_in_finally.
+
+Example ex_frame_run :
+  let '(cs, errs, log) := frame_fill ex_frame false [fresh 0; fresh 1] in
+  cs = [fresh 0; mkctx 2 None [] true (Some [ATag 1; ATag 2]) false]
+  /\ errs = [FLoop 0 (UTo 0)] /\ length log = 205.
+Proof. vm_compute. auto. Qed.
+
+(* ------------------------------------------------------------------ 7. histories *)
+
+(* the verdict on a step does not depend on the steps before it: the model has no state
+   besides the tables each step carries *)
+Lemma history_stateless a b : hcase_ok (a ++ b) = hcase_ok a && hcase_ok b.
+Proof. unfold hcase_ok. apply forallb_app. Qed.
+
+(* hooks registered after a manager was first filled take effect at the next fill *)
+Definition ex_before : cfg :=
+  mkcfg [(0, syn_attr false false); (1, syn_attr true false)] [(0, [ESetDescr 7])] [(0, UTo 1); (1, UPrune)]
+        [] [] [] [] SrcFacts.context_guard SrcFacts.push_restores_in_finally.
+Definition ex_after : cfg :=
+  mkcfg [(0, syn_attr true false); (1, syn_attr true false)] [(0, [ESetDescr 7])] [(0, UTo 1); (1, UPrune)]
+        [] [] [] [] SrcFacts.context_guard SrcFacts.push_restores_in_finally.
+
+Example ex_late_registration :
+  fst (fst (fill ex_before None (fresh 0))) = Done (fresh 0)
+  /\ fst (fst (fill ex_after None (fresh 0))) = Done (mkctx 1 None [] true (Some [ATag 7]) false).
+Proof. vm_compute. auto. Qed.
